@@ -7,8 +7,8 @@
                          keepdims reshape, 0-d -> scalar.
    COO._reduce_calc:     transpose to (kept axes ++ reduced axes), reshape to 2-D
                          (rows = kept, cols = reduced), _grouped_reduce on the row numbers.
-   _calc_counts_invidx:  starts and sizes of the runs of equal row numbers, cast to the
-                         coordinate dtype at the end (the function [wr]).
+   _calc_counts_invidx:  starts and sizes of the runs of equal row numbers (np.intp arrays:
+                         unbounded Z here).
    _grouped_reduce:      ufunc.reduceat at the run starts.
    COO._reduce_return:   COO(rows at the run starts, data, prune=True).reshape(kept extents).
    GCXS:                 the decision structure of GCXS._reduce_calc (IndexError on the empty
@@ -108,18 +108,12 @@ Fixpoint cci_loop (gs : list Z) (i last cur : Z) : list Z * list Z :=
     else let '(inv, cnt) := cci_loop r (i + 1) g i in (i :: inv, (i - cur) :: cnt)
   end.
 
-(* [wr] is the cast np.array(list, dtype=groups.dtype) *)
-Definition calc_counts_invidx (wr : Z -> Z) (groups : list Z) : list Z * list Z :=
+(* (inv_idx, counts), both np.intp *)
+Definition calc_counts_invidx (groups : list Z) : list Z * list Z :=
   match groups with
   | [] => ([], [])
-  | g0 :: r => let '(inv, cnt) := cci_loop r 1 g0 0 in (map wr (0 :: inv), map wr cnt)
+  | g0 :: r => let '(inv, cnt) := cci_loop r 1 g0 0 in (0 :: inv, cnt)
   end.
-
-(* two's-complement / modular wrap into an integer type of the given width *)
-Definition wrap_int (bits : Z) (signed : bool) (z : Z) : Z :=
-  let m := 2 ^ bits in
-  let r := z mod m in
-  if signed && (2 ^ (bits - 1) <=? r) then r - m else r.
 
 (* GCXS._reduce_calc: the same groups read off an index pointer:
    idx = diff(indptr) != 0; starts = indptr[:-1][idx]; rows = arange(nrows)[idx];
@@ -164,9 +158,9 @@ Section Generic.
     reduceat_go d data (zlen data) idx.
 
   (* _grouped_reduce(x, groups, method): (result, inv_idx, counts) *)
-  Definition grouped_reduce (wr : Z -> Z) (d : V) (data : list V) (groups : list Z)
+  Definition grouped_reduce (d : V) (data : list V) (groups : list Z)
     : res (list V * list Z * list Z) :=
-    let '(inv, counts) := calc_counts_invidx wr groups in
+    let '(inv, counts) := calc_counts_invidx groups in
     r <- reduceat d (map cast data) inv ;; Ok (r, inv, counts).
 
   (* ---------------------------------------------------------------- COO.transpose / reshape *)
@@ -223,7 +217,7 @@ Section Generic.
     k_kept : list Z       (* neg_axis *)
   }.
 
-  Definition coo_reduce_calc (wr : Z -> Z) (nax : option (list Z)) (x : coo V) : res calc :=
+  Definition coo_reduce_calc (nax : option (list Z)) (x : coo V) : res calc :=
     let sh := c_shape x in
     let ndim := zlen sh in
     axes <- calc_axes ndim nax ;;
@@ -233,7 +227,7 @@ Section Generic.
     let ncols := size (sel 0 axes sh) in
     a2 <- coo_reshape [nrows; ncols] a ;;
     let rows := map (fun ix => nth 0 ix 0) (c_coords a2) in
-    g <- grouped_reduce wr (c_fill x) (c_data a2) rows ;;
+    g <- grouped_reduce (c_fill x) (c_data a2) rows ;;
     let '(data, inv, counts) := g in
     Ok (mkCalc data counts axes ncols nrows rows inv kept).
 
@@ -253,11 +247,11 @@ Section Generic.
   Definition reduce_coo_with
       (head : Z -> V -> axis_arg -> res (option (list Z)))
       (fixc : V -> Z -> V -> Z -> res V) (rfillf : V -> Z -> res V)
-      (wr : Z -> Z) (ax : axis_arg) (keepdims : bool) (x : coo V) : res rres :=
+      (ax : axis_arg) (keepdims : bool) (x : coo V) : res rres :=
     let sh := c_shape x in
     let f := c_fill x in
     nax <- head (zlen sh) f ax ;;
-    k <- coo_reduce_calc wr nax x ;;
+    k <- coo_reduce_calc nax x ;;
     data <- map2_res (fixc f (k_ncols k)) (k_data k) (k_counts k) ;;
     rfill <- rfillf f (k_ncols k) ;;
     out <- coo_reduce_return sh k data rfill ;;
@@ -283,7 +277,7 @@ Section Generic.
   Definition result_fill (f : V) (ncols : Z) : V :=
     match sup with None => f | Some s => s f ncols end.
 
-  Definition reduce_coo : (Z -> Z) -> axis_arg -> bool -> coo V -> res rres :=
+  Definition reduce_coo : axis_arg -> bool -> coo V -> res rres :=
     reduce_coo_with head_generic (fun f n d c => Ok (fix_cell f n d c)) (fun f n => Ok (result_fill f n)).
 
   (* ---------------------------------------------------------------- GCXS *)
@@ -308,7 +302,7 @@ Section Generic.
         (* x = self.flatten().tocoo(); out = x.reduce(method, axis=None, keepdims=keepdims);
            keepdims: out.reshape(ones(ndim)) *)
         x1 <- coo_reshape [size sh] (gcxs_to_coo g) ;;
-        r <- reduce_coo_with head fixc rfillf (fun z => z) AxNone keepdims x1 ;;
+        r <- reduce_coo_with head fixc rfillf AxNone keepdims x1 ;;
         if keepdims then
           match r with
           | RArr c => c' <- coo_reshape (map (fun _ => 1) sh) c ;; Ok (RArr c')
@@ -324,7 +318,7 @@ Section Generic.
         | _ =>
           (* rows over the kept axes, columns over the other axes in increasing order *)
           let red := kept_axes ndim caxes in
-          k <- coo_reduce_calc (fun z => z) (Some red) (gcxs_to_coo g) ;;
+          k <- coo_reduce_calc (Some red) (gcxs_to_coo g) ;;
           data <- map2_res (fixc f (k_ncols k)) (k_data k) (k_counts k) ;;
           rfill <- rfillf f (k_ncols k) ;;
           out <- coo_reduce_return sh k data rfill ;;
@@ -395,7 +389,7 @@ Definition rfill_z (m : Z) (f ncols : Z) : res Z :=
     match r with VTuple [_; v] => as_z (Ok v) | _ => Raise OtherError end
   end.
 
-Definition reduce_coo_z (m : Z) : (Z -> Z) -> axis_arg -> bool -> coo Z -> res (rres Z) :=
+Definition reduce_coo_z (m : Z) : axis_arg -> bool -> coo Z -> res (rres Z) :=
   reduce_coo_with Z Z.eqb (op_z m) (ufunc_cast m) (head_z m) (fix_z m) (rfill_z m).
 
 Definition gcxs_reduce_z (m : Z) : axis_arg -> bool -> gcxs Z -> res (rres Z) :=
@@ -407,10 +401,6 @@ Definition gcxs_reduce_z (m : Z) : axis_arg -> bool -> gcxs Z -> res (rres Z) :=
    instead of the ufunc's identity, and returns where NumPy raises for minimum/maximum *)
 Definition reduced_extents_positive (plain : bool) (sh : shape) (axes : list Z) : bool :=
   negb plain || (0 <? size (sel 0 axes sh)).
-
-(* D2: _calc_counts_invidx returns offsets in the coordinate dtype *)
-Definition idx_dtype_holds_nnz (wr : Z -> Z) (nnz : Z) : bool :=
-  forallb (fun z => wr z =? z) (zrange (nnz + 1)).
 
 (* what GCXS._reduce_calc needs of the normalised axis tuple (None is always fine):
    gcxs_axes_nonempty            `axis[0]` raises IndexError on the empty tuple;
